@@ -9,6 +9,7 @@
     D30  `adjust_cross_origin_area`: only protoclusters take the core branches
     D31  `adjust_cross_origin_area`: the side of the core is `core_start >= feature.start`
     D70-C19  `Area.crosses_origin`: `>=` (an area `[s, L) + [0, s)` tiling the record)
+    D72-C19  `adjust_cross_origin_area`: `core_start >= core_end` (a core tiling the record)
   Mutation through `self`/closures becomes returned values; `ValueError`/`assert` become `none`.
   No imports outside ASV.Model (driver-linkable).
 -/
@@ -165,8 +166,8 @@ def adjustCrossOrigin (area : Area) (f : Feat) (regionCrosses : Bool) (L : Int) 
       let area := { area with group := gid }
       let extra := { area with start := 0, nstart := 0, «end» := f.end, nend := f.end }
       some ({ area with «end» := L, nend := L }, some extra)
-  else if f.coreStart > f.coreEnd then
-    -- the core crosses the origin
+  else if f.coreStart ≥ f.coreEnd then
+    -- the core crosses the origin (`>=` with fixes/D72-C19: a core tiling the record has equal coordinates)
     if regionCrosses then
       some ({ area with «end» := area.end + L, nend := area.nend + L }, none)
     else
